@@ -351,14 +351,14 @@ Fixpoint slex_f (fuel : nat) (ls : slex) (src : list ch) (lineno : Z) : res slex
                      let '(cond_s, s3, ln3) := LexCore.get_token_nest s2 ln2 40 41 in
                      do cl <- lex_calc ls cond_s;
                      do cond <- cond_of cl;
-                     let '(s4, ln4) := skip_space s3 ln3 in
+                     let '(s4, ln4) := skip_space_ret s3 ln3 in
                      if negb (eq_char s4 123) then Unsupported U_SYNTAX else
                      let '(then_s, s5, ln5) := LexCore.get_token_nest s4 ln4 123 125 in
                      do th <- slex_f f ls then_s ln4;          (* the block starts on the line of its '{' *)
                      let '(then_tok, ls1) := th in
                      let '(s6, ln6) := skip_space_ret s5 ln5 in
                      if prefixb (zs "ELSE") s6 || prefixb (zs "Else") s6 then
-                       let '(s7, ln7) := skip_space (skipn 4 s6) ln6 in
+                       let '(s7, ln7) := skip_space_ret (skipn 4 s6) ln6 in
                        if negb (eq_char s7 123) then Unsupported U_SYNTAX else
                        let '(else_s, s8, ln8) := LexCore.get_token_nest s7 ln7 123 125 in
                        do el <- slex_f f ls1 else_s ln7;       (* ... the ELSE block on the line of its '{' too *)
@@ -372,7 +372,7 @@ Fixpoint slex_f (fuel : nat) (ls : slex) (src : list ch) (lineno : Z) : res slex
                      let '(cond_s, s3, ln3) := LexCore.get_token_nest s2 ln2 40 41 in
                      do cl <- lex_calc ls cond_s;
                      do cond <- cond_of cl;
-                     let '(s4, ln4) := skip_space s3 ln3 in
+                     let '(s4, ln4) := skip_space_ret s3 ln3 in
                      let '(body_s, s5, ln5) := LexCore.get_token_nest s4 ln4 123 125 in
                      do bd <- slex_f f ls body_s ln4;
                      let '(body_tok, ls1) := bd in
@@ -384,7 +384,7 @@ Fixpoint slex_f (fuel : nat) (ls : slex) (src : list ch) (lineno : Z) : res slex
                      let '(init_raw, s3, ln3) := get_token_ch 59 (tl s2) ln2 in
                      let '(cond_s, s4, ln4) := get_token_ch 59 s3 ln3 in
                      let '(inc_s, s5, ln5) := get_token_ch 41 s4 ln4 in
-                     let '(s6, ln6) := skip_space s5 ln5 in
+                     let '(s6, ln6) := skip_space_ret s5 ln5 in
                      if negb (eq_char s6 123) then Unsupported U_SYNTAX else
                      let '(body_s, s7, ln7) := LexCore.get_token_nest s6 ln6 123 125 in
                      let init_t := trim init_raw in
